@@ -342,68 +342,32 @@ impl<T> DataReaderEntity<T> {
         reception_timestamp: Time,
     ) -> DdsResult<AddChangeResult> {
         let instance_handle = InstanceHandle::new(change_instance_handle);
-        // Update the state of the instance before creating since this has direct impact on
-        // the information that is stored on the sample
-        match change_kind {
-            ChangeKind::Alive | ChangeKind::AliveFiltered => {
-                match self
-                    .instances
-                    .iter_mut()
-                    .find(|x| x.handle() == &instance_handle)
-                {
-                    Some(x) => x.update_state_from_writer(
-                        change_kind,
-                        writer_guid.into(),
-                        Some(reception_timestamp),
-                    ),
-                    None => {
-                        let mut s = InstanceState::new(instance_handle);
-                        s.update_state_from_writer(
-                            change_kind,
-                            writer_guid.into(),
-                            Some(reception_timestamp),
-                        );
-                        self.instances.push(s);
-                    }
-                }
-                Ok(())
-            }
+        // A change of the state of an instance the reader does not know cannot be processed
+        if matches!(
+            change_kind,
             ChangeKind::NotAliveDisposed
-            | ChangeKind::NotAliveUnregistered
-            | ChangeKind::NotAliveDisposedUnregistered => {
-                match self
-                    .instances
-                    .iter_mut()
-                    .find(|x| x.handle() == &instance_handle)
-                {
-                    Some(instance) => {
-                        instance.update_state_from_writer(
-                            change_kind,
-                            writer_guid.into(),
-                            Some(reception_timestamp),
-                        );
-                        Ok(())
-                    }
-                    None => Err(DdsError::Error(
-                        "Received message changing state of unknown instance".to_string(),
-                    )),
-                }
-            }
-        }?;
-        let instance = self
+                | ChangeKind::NotAliveUnregistered
+                | ChangeKind::NotAliveDisposedUnregistered
+        ) && !self
             .instances
             .iter()
-            .find(|x| x.handle() == &instance_handle)
-            .expect("Sample with handle must exist");
-        let sample = ReaderSample {
+            .any(|x| x.handle() == &instance_handle)
+        {
+            return Err(DdsError::Error(
+                "Received message changing state of unknown instance".to_string(),
+            ));
+        }
+        // The instance state is only updated once the sample is accepted (a sample that is ignored
+        // or rejected must not change it); the generation counts are filled in at that point
+        let mut sample = ReaderSample {
             kind: change_kind,
             writer_guid: writer_guid.into(),
             instance_handle,
             source_timestamp: change_source_timestamp,
             data_value,
             sample_state: SampleStateKind::NotRead,
-            disposed_generation_count: instance.most_recent_disposed_generation_count,
-            no_writers_generation_count: instance.most_recent_no_writers_generation_count,
+            disposed_generation_count: 0,
+            no_writers_generation_count: 0,
         };
 
         let change_instance_handle = sample.instance_handle;
@@ -462,11 +426,10 @@ impl<T> DataReaderEntity<T> {
             }
         }
 
+        // The owner keeps the instance when it disposes it and gives it up when it unregisters it
         if matches!(
             sample.kind,
-            ChangeKind::NotAliveDisposed
-                | ChangeKind::NotAliveUnregistered
-                | ChangeKind::NotAliveDisposedUnregistered
+            ChangeKind::NotAliveUnregistered | ChangeKind::NotAliveDisposedUnregistered
         ) {
             if let Some(i) = self
                 .instance_ownership
@@ -619,6 +582,15 @@ impl<T> DataReaderEntity<T> {
             }
         }?;
 
+        if let Some(instance) = self
+            .instances
+            .iter()
+            .find(|x| x.handle() == &sample.instance_handle)
+        {
+            sample.disposed_generation_count = instance.most_recent_disposed_generation_count;
+            sample.no_writers_generation_count = instance.most_recent_no_writers_generation_count;
+        }
+
         let sample_writer_guid = sample.writer_guid;
         tracing::debug!(cache_change = ?sample, "Adding change to data reader history cache");
 
@@ -645,11 +617,19 @@ impl<T> DataReaderEntity<T> {
                     x.last_received_time = reception_timestamp;
                 }
             }
-            None => self.instance_ownership.push(InstanceOwnership {
-                instance_handle: change_instance_handle,
-                last_received_time: reception_timestamp,
-                owner_handle: sample_writer_guid,
-            }),
+            None => {
+                // A writer unregistering the instance must not become its owner again
+                if !matches!(
+                    change_kind,
+                    ChangeKind::NotAliveUnregistered | ChangeKind::NotAliveDisposedUnregistered
+                ) {
+                    self.instance_ownership.push(InstanceOwnership {
+                        instance_handle: change_instance_handle,
+                        last_received_time: reception_timestamp,
+                        owner_handle: sample_writer_guid,
+                    })
+                }
+            }
         }
         Ok(AddChangeResult::Added)
     }
